@@ -128,7 +128,7 @@ Printable(v) == v.t \in {"int", "bool", "str"}
 \* ----------------------------------------------------------- evaluation
 RECURSIVE Eval(_, _, _), EvalList(_, _, _, _, _), EvalListRTL(_, _, _, _, _), CallFn(_, _, _, _),
           Builtin(_, _, _, _), ExecSeq(_, _, _, _), Exec(_, _, _), ExecWhile(_, _, _), ExecFor(_, _, _, _, _),
-          ExecForIn(_, _, _, _, _)
+          ExecForIn(_, _, _, _, _), ExecForInSnap(_, _, _, _, _, _)
 
 Builtins == {"println", "print", "array_length", "at", "array_set", "array_push", "array_pop",
              "str_length", "int_to_string", "abs", "min", "max", "str_concat", "str_equals",
@@ -516,7 +516,8 @@ Exec(C, s, st0) ==
             ELSE IF a.v.t # "arr" THEN RS("n", VVoid, Fault(a.st, "stuck:type"))
             ELSE IF HasDev(C, "NATIVE_FOR_IN_ARRAY_SKIPPED") /\ s.a[1].k = "var" THEN RS("n", VVoid, a.st)
             ELSE LET n == Len(a.st.env)
-                     r == ExecForIn(C, s, a.v, 1, a.st) IN
+                     r == IF HasDev(C, "FORIN_LENGTH_SNAPSHOT") THEN ExecForInSnap(C, s, a.v, 1, Len(ArrOf(a.st, a.v)), a.st)
+                          ELSE ExecForIn(C, s, a.v, 1, a.st) IN
                  IF HasDev(C, "VM_NO_BLOCK_SCOPE") THEN r ELSE [r EXCEPT !.st.env = SubSeq(r.st.env, 1, n)]
      [] s.k = "match" ->
             LET r == Eval(C, s.a[1], st) IN
@@ -572,6 +573,24 @@ ExecForIn(C, s, arr, k, st0) ==
         ELSE IF b.sig = "b" THEN RS("n", VVoid, after)
         ELSE IF b.sig = "r" THEN [b EXCEPT !.st = after]
         ELSE ExecForIn(C, s, arr, k + 1, after)
+
+\* The documents do not say what `for x in a` does when its body changes the length of a.  ExecForIn above re-reads the
+\* length before every iteration (the loop ends early when the array shrinks).  FORIN_LENGTH_SNAPSHOT is the other reading the
+\* engines implement: the length is read once, elements are taken by index, and an index that is no longer inside the array
+\* is an out-of-range access like any other (ARRAY_SAFETY.md): the run stops there.  Both are acceptable; reading a stale
+\* element is not.
+ExecForInSnap(C, s, arr, k, n0, st0) ==
+   LET st == Tick(st0) IN
+   IF Bad(st) THEN RS("n", VVoid, st)
+   ELSE IF k > n0 THEN RS("n", VVoid, st)
+   ELSE IF k > Len(ArrOf(st, arr)) THEN RS("n", VVoid, Fault(st, "fault:bounds"))
+   ELSE LET n == Len(st.env)
+            b == ExecScoped(C, s.b, [st EXCEPT !.env = Append(@, [n |-> s.s, v |-> ArrOf(st, arr)[k]])])
+            after == IF NoBlockScope(C) THEN b.st ELSE [b.st EXCEPT !.env = SubSeq(@, 1, n)] IN
+        IF Bad(b.st) THEN b
+        ELSE IF b.sig = "b" THEN RS("n", VVoid, after)
+        ELSE IF b.sig = "r" THEN [b EXCEPT !.st = after]
+        ELSE ExecForInSnap(C, s, arr, k + 1, n0, after)
 
 \* ------------------------------------------------------------- programs
 RECURSIVE InitGlobals(_, _, _)
